@@ -37,15 +37,17 @@ Inductive wev : Set :=
 | WTimeout                                   (* the outstanding request got no (admissible) reply *)
 | WUser.                                     (* a user call: nothing on the wire *)
 
+(* what a call of transmit_telegram shows on the wire / in the event queue *)
+Definition wev_of_ptx (r : ptx) : wev :=
+  match r with
+  | PtxSend h pdu => WReq h pdu
+  | PtxSkip None => WIdle
+  | PtxSkip (Some ev) => WEvent ev
+  end.
+
 Definition p_step (pa : params) (p : periph) (c : pcall) : res (periph * wev) :=
   match c with
-  | PcTransmit op =>
-      let* (p1, r) := p_transmit pa op p in
-      Ok (p1, match r with
-              | PtxSend h pdu => WReq h pdu
-              | PtxSkip None => WIdle
-              | PtxSkip (Some ev) => WEvent ev
-              end)
+  | PcTransmit op => let* (p1, r) := p_transmit pa op p in Ok (p1, wev_of_ptx r)
   | PcReply t => let* (p1, ev) := p_receive_reply p t in Ok (p1, WReply t ev)
   | PcTimeout => Ok (p, WTimeout)
   | PcReqDiag => Ok (p_request_diagnostics p, WUser)
@@ -616,7 +618,7 @@ Proof.
     unfold bind in H. destruct (p_transmit pa op p) as [[p1 r]| |] eqn:Ht; try discriminate.
     inversion H; subst p' e; clear H.
     destruct (transmit_facts _ _ _ _ _ Ht) as (Ha & Ho & F).
-    destruct r as [h pdu|[ev|]].
+    destruct r as [h pdu|[ev|]]; cbn [wev_of_ptx] in *.
     + (* a request *)
       destruct F as (Hle & Hs & Hf & Hr & Hoff & Hsame & Hstd).
       destruct (std_request_classify _ _ _ _ _ _ _ Hstd) as (Hcl & Hda & Hsa & Hfc).
